@@ -100,7 +100,7 @@ Definition wait_for_ack (s : fe_state) (req : VhostUserMsgHeader) (q : stream) :
            else if negb (VhostUserU64_value b =? 0) then RErr EBackendInternal else ROk tt
        end.
 
-(* recv_reply_with_payload::<VhostUserConfig> *)
+(* recv_reply_with_payload::<VhostUserConfig>: header first, then exactly the announced size *)
 Definition recv_reply_payload (req : VhostUserMsgHeader) (q : stream)
   : rresult (VhostUserConfig * list N * option (list N)) :=
   let tsz := sz VhostUserConfig_layout in
@@ -108,23 +108,30 @@ Definition recv_reply_payload (req : VhostUserMsgHeader) (q : stream)
   if (N.to_nat MAX_MSG_SIZE <? tsz)%nat || (rsize <=? tsz)%nat || (N.to_nat MAX_MSG_SIZE <? rsize)%nat
      || VhostUserMsgHeader_is_reply RF req then RErr EInvalidParam
   else
-    let buflen := (rsize - tsz)%nat in
-    let total := (12 + tsz)%nat in
-    match recv_all (fuel_for q (total + buflen)) (total + buflen) [] None [] q with
+    match recv_all (fuel_for q 12) 12 [] None [] q with
     | RxAllFuel => RErr ESocketError
-    | RxAll bytes files _ _ =>
-        if (List.length bytes <? total)%nat then RErr EPartialMessage
+    | RxAll hb files _ q1 =>
+        if Nat.eqb (List.length hb) 0 then RErr EDisconnected
+        else if negb (Nat.eqb (List.length hb) 12) then RErr EPartialMessage
         else
-          let h := VhostUserMsgHeader_read bytes 0 in
-          let b := VhostUserConfig_read bytes 12%nat in
-          if negb (VhostUserMsgHeader_is_valid RF h) || negb (VhostUserConfig_is_valid b) then RErr EInvalidMessage
+          let h := VhostUserMsgHeader_read hb 0 in
+          if negb (VhostUserMsgHeader_is_valid RF h) then RErr EInvalidMessage
           else
-            let got := (List.length bytes - total)%nat in
-            if negb (VhostUserMsgHeader_is_reply_for RF h req)
-               || negb (N.to_nat (VhostUserMsgHeader_get_size RF h) =? tsz + got)%nat
-               || o_is_some files || negb (VhostUserConfig_is_valid b) || negb (got =? buflen)%nat
-            then RErr EInvalidMessage
-            else ROk (b, skipn total bytes, files)
+            let size := N.to_nat (VhostUserMsgHeader_get_size RF h) in
+            if negb (VhostUserMsgHeader_is_reply_for RF h req) || o_is_some files
+               || (size <? tsz)%nat || (rsize <? size)%nat then RErr EInvalidMessage
+            else
+              match recv_data size q1 with
+              | RxDRetry _ _ => RErr ESocketRetry
+              | RxD buf _ _ =>
+                  if negb (Nat.eqb (List.length buf) size) then RErr EPartialMessage
+                  else
+                    let b := VhostUserConfig_read buf 0%nat in
+                    let payload := skipn tsz buf in
+                    if negb (VhostUserConfig_is_valid b) || negb (Nat.eqb (List.length payload) (rsize - tsz))
+                    then RErr EInvalidMessage
+                    else ROk (b, payload, files)
+              end
     end.
 
 (* ---- helpers for results ---- *)
@@ -397,3 +404,22 @@ Definition fe_op (s : fe_state) (name : string) (a : list N) (bytes : list N) (f
     else get_u64 s FrontendReq_CHECK_DEVICE_STATE q
                  (fun s v m => if negb (v =? 0) then out_err s EBackendInternal [m] else out_ok s [] [m])
   else {| f_state := s; f_result := VS "model-unknown-op"; f_sent := [] |}.
+
+(* how many reply bytes the operation waits for once its request is written (used by the session
+   model to tell "returns an error" from "keeps waiting on a live connection") *)
+Definition fe_demand (s : fe_state) (name : string) (a : list N) (bytes : list N) : nat :=
+  let ack := if hasf (fe_apf s) VhostUserProtocolFeatures_REPLY_ACK && hasf (fe_hdr_flags s) VhostUserHeaderFlag_NEED_REPLY
+             then 20%nat else 0%nat in
+  if existsb (String.eqb name) ["get_features"; "get_protocol_features"; "get_queue_num"; "get_max_mem_slots";
+                                "check_device_state"; "set_device_state_fd"; "get_vring_base"] then 20%nat
+  else if String.eqb name "set_log_base" then
+    (if hasf (fe_apf s) VhostUserProtocolFeatures_LOG_SHMFD && (nth 1 a 0 =? 1) then 28%nat else 0%nat)
+  else if String.eqb name "get_config" then 12%nat
+  else if String.eqb name "get_shared_object" then 12%nat
+  else if String.eqb name "get_inflight_fd" then (12 + sz VhostUserInflight_layout)%nat
+  else if String.eqb name "get_shmem_config" then (12 + sz VhostUserShMemConfig_layout)%nat
+  else if String.eqb name "set_protocol_features" then
+    (* the acknowledged set is updated before the wait *)
+    (if hasf (N.land (nth 0 a 0) VhostUserProtocolFeatures_all) VhostUserProtocolFeatures_REPLY_ACK
+        && hasf (fe_hdr_flags s) VhostUserHeaderFlag_NEED_REPLY then 20%nat else 0%nat)
+  else ack.
